@@ -33,8 +33,10 @@ func c04Profiles(rng *rand.Rand, tier string) []Profile {
 	}
 	var ps []Profile
 	for i := 0; i < n; i++ {
-		p := Profile{Steps: 8 + rng.Intn(10), DeleteBias: 0.8, ForkBias: 0.9}
+		p := Profile{Steps: 8 + rng.Intn(10), DeleteBias: 0.8, ForkBias: 0.9, RestartBias: 0.06}
 		switch i % 7 {
+		case 4, 6:
+			p.RestartBias = 0.3 // restart-heavy: every guard of the property is evaluated right after restarts
 		case 0, 3:
 			p.TieBreak = true
 			p.ForkBias = 2.5
@@ -150,8 +152,16 @@ func (p Prop) Classify(c corr.Case, out []string) string {
 			has["delat-"+w[0]] = true
 		case "restart", "till", "twin", "gap", "lasth":
 			has[op] = true
+		case "sctx":
+			has["sctx"] = true
 		case "pv":
 			has["pv-"+w[0]] = true
+		}
+		if i > 0 && (op == "sctx" || op == "delat" || op == "till") && strings.HasPrefix(c.Ops[i-1], "restart") {
+			has["restart-guard"] = true
+		}
+		if op == "pv" && w[0] == "ok" && strings.Contains(c.Ops[i], " sy=1 ") && strings.Contains(l, "ev=fin:") {
+			has["pv-sync-fin"] = true
 		}
 		for _, t := range w {
 			if strings.HasPrefix(t, "fin=") {
@@ -167,7 +177,7 @@ func (p Prop) Classify(c corr.Case, out []string) string {
 		return ""
 	}
 	var keys []string
-	for _, k := range []string{"tieBreakApplied", "tieBreakReverted", "doubleForging", "identical", "discard", "wouldSync", "err", "del-refused", "delat-err", "restart", "till", "twin", "pv-ok", "gap"} {
+	for _, k := range []string{"tieBreakApplied", "tieBreakReverted", "doubleForging", "identical", "discard", "wouldSync", "err", "del-refused", "delat-err", "restart", "restart-guard", "sctx", "till", "twin", "pv-ok", "pv-sync-fin", "gap"} {
 		if has[k] {
 			keys = append(keys, k)
 		}
